@@ -99,15 +99,27 @@ def run_cbmc(u, ctx):
     os.makedirs(work, exist_ok=True)
     inc = ['-I', ctx.gen, '-I', os.path.join(VERIF, 'ghost'), '-I', os.path.join(VERIF, 'specs')]
     gb, ib = os.path.join(work, 'a.gb'), os.path.join(work, 'b.gb')
-    cmd1 = ['goto-cc', '-DVERIF_CBMC', '--function', u.entry] + defs(u) + inc + [os.path.join(VERIF, u.spec), '-o', gb]
+    # reachability canary (vacuity guard, DESIGN 2.7): the entry point is a wrapper that runs the unit's harness and then asserts
+    # false; that assertion must FAIL (some path through the contract-checked function returns).  If it is "proved", every path
+    # was cut (contradictory assumptions, an unwinding bound that is too small, ...) and nothing the unit reports is believed.
+    refute_only = getattr(u, 'refute_only', False)      # second-opinion run: stop at the first counterexample, no canary
+    entry = 'canary_' + u.entry
+    canary_c = os.path.join(work, 'canary.c')
+    with open(canary_c, 'w') as f:
+        f.write('void %s(void);\nvoid %s(void) { %s(); %s }\n' % (u.entry, entry, u.entry, '' if refute_only else '__CPROVER_assert(0, "reach-canary: the harness returns on some path");'))
+    cmd1 = ['goto-cc', '-DVERIF_CBMC', '--function', entry] + defs(u) + inc + [os.path.join(VERIF, u.spec), canary_c, '-o', gb]
     rc, out, err, s1 = sh(cmd1, 120)
     if rc != 0:
         u.status, u.note = 'undecided', 'goto-cc failed: ' + (err or out)[-1500:]
         return
-    cmd2 = ['goto-instrument', '--dfcc', u.entry, '--enforce-contract', u.function]
+    cmd2 = ['goto-instrument', '--dfcc', entry, '--enforce-contract', u.function]
     # a callee that is declared but never called is not in the goto model (goto-instrument rejects replacing it): keep only
     # replacement targets that are actually called somewhere in the spec or the extracted pieces
     texts = open(os.path.join(VERIF, u.spec)).read()
+    for inc_name in re.findall(r'#include\s+"([\w.]+\.c)"', texts):       # a spec may include another spec (C23 includes C22's)
+        ip = os.path.join(VERIF, 'specs', inc_name)
+        if os.path.exists(ip):
+            texts += open(ip).read()
     for fn in os.listdir(ctx.gen):
         texts += open(os.path.join(ctx.gen, fn)).read()
     for r in u.replace:
@@ -142,6 +154,8 @@ def run_cbmc(u, ctx):
     for e in data:
         if 'result' in e:
             results = e['result']
+        elif 'property' in e and 'status' in e and 'trace' in e:      # --stop-on-fail prints the one failed property at top level
+            results = (results or []) + [e]
         if e.get('messageType') in ('ERROR', 'WARNING'):
             msgs.append(e.get('messageText', ''))
     if results is None:
@@ -150,9 +164,20 @@ def run_cbmc(u, ctx):
     if any('ignoring' in m for m in msgs):
         u.status, u.note = 'undecided', 'cbmc ignored a construct: ' + ' | '.join(m for m in msgs if 'ignoring' in m)[:800]
         return
+    canary = [r for r in results if r['property'].startswith(entry + '.assertion')]
+    if not refute_only and (len(canary) != 1 or canary[0]['status'] == 'SUCCESS'):
+        u.status, u.note = 'undecided', 'vacuity guard: the end of the harness is unreachable (reach-canary %s)' % ('proved' if canary else 'missing')
+        return
+    results = [r for r in results if not r['property'].startswith(entry + '.')]
     for r in results:
         name = r['property']
         if name.startswith('__CPROVER_contracts_') or name.startswith('__CPROVER__start'):
+            # instrumentation-library obligations are not counted, BUT a failing unwinding assertion inside the contracts library
+            # means paths were cut at the bound (everything after is unreachable: a vacuous pass) -> the unit is undecided
+            if '.unwind.' in name and r['status'] != 'SUCCESS':
+                u.status, u.note = 'undecided', 'unwinding bound too small for a loop of the contracts library (%s): paths cut, result would be vacuous' % name
+                u.obls = []
+                return
             continue
         loc = r.get('sourceLocation', {})
         cls = name.split('.')[-2] if name.count('.') >= 2 else 'other'
@@ -269,6 +294,24 @@ def run_unit(u, ctx):
             run_cbmc(u, ctx)
         elif u.backend == 'intwp':
             run_intwp(u, ctx)
+            # second opinion for REFUTATION only: when the SMT back end leaves an obligation unknown (typically bit-level
+            # operators such as | & on symbolic operands) and the spec has a CBMC harness for the function, CBMC (bit-precise)
+            # is asked for a counterexample.  Only a FAILED obligation with a trace is taken from it; anything else leaves the
+            # unit undecided as before (CBMC cannot prove the product-form postconditions, DESIGN section 1).
+            if u.status == 'undecided' and 'unknown' in u.note and ('void h_%s(' % u.function) in open(os.path.join(VERIF, u.spec)).read():
+                u2 = clone_unit(u)
+                u2.backend, u2.timeout, u2.expect, u2.signed_wrap = 'cbmc', min(240, max(60, u.timeout)), [], False
+                u2.entry = 'h_' + u.function
+                u2.refute_only = True
+                u2.flags = list(u2.flags) + ['--stop-on-fail']
+                run_cbmc(u2, ctx)
+                bad = [o for o in u2.obls if o['status'] == 'failed' and o['cls'] not in u.nonprop_cls and o['cls'] in ('postcondition', 'assertion', 'precondition', 'division-by-zero', 'bounds', 'pointer_dereference')]
+                if bad:
+                    u.obls = [o for o in u.obls if o['status'] == 'proved'] + bad
+                    u.status, u.note = 'failed', 'SMT back end undecided; CBMC (bit-precise) produced a counterexample'
+                    u.cmd += '  ||  ' + u2.cmd
+                else:
+                    u.note += ' | CBMC second opinion: %s %s' % (u2.status, u2.note[:300])
             # two-level rule (DESIGN 2.6): an internal callee-contract failure is re-examined with the callee inlined
         elif u.backend == 'native':
             run_native(u, ctx)
